@@ -52,7 +52,9 @@ static bool caseBad, quiet;
 static int phase;
 static uint64 now;
 static std::set<int> touchedTops, excused, protectedNodes;   // since the last recalculation / in this sweep
-static long nAsks, nFires, nActionsInCallbacks;
+static long nAsks, nFires, nActionsInCallbacks, nGptActions;
+static long gptActionsThisSweep; static int curRootIdx; static uint64 sweepFloor; static bool optStackInvalidate;
+static std::map<int, std::pair<int, uint64> > scriptedGptInvalidate; static std::map<int, int> scriptedGptAttach;   // regress witnesses: node -> (target, new time) / node -> child to adopt
 
 static std::string T(uint64 t) { return t == NEVER ? std::string("never") : vh::fmt("%llu", (unsigned long long)t); }
 static void Op(const std::string & s) { trace.push_back(s); }
@@ -70,8 +72,8 @@ struct Node : public PulseNode {
    int id; uint64 req;                                   // what GetPulseTime() answers
    // reference model
    bool isRoot, valid; uint64 lastReturned, sched; int parent; std::vector<int> kids;
-   int asked, fired;
-   Node(int i) : id(i), req(NEVER), isRoot(false), valid(false), lastReturned(NEVER), sched(NEVER), parent(-1), asked(0), fired(0) {}
+   int asked, fired; bool deferredAsk, stackInvalidated;   // invalidated/attached during a recalculation sweep where it can only be asked in the next one
+   Node(int i) : id(i), req(NEVER), isRoot(false), valid(false), lastReturned(NEVER), sched(NEVER), parent(-1), asked(0), fired(0), deferredAsk(false), stackInvalidated(false) {}
    virtual uint64 GetPulseTime(const PulseArgs & a);
    virtual void Pulse(const PulseArgs & a);
 };
@@ -79,6 +81,9 @@ struct Mgr : public PulseNodeManager {
    void Recalc(PulseNode & r, uint64 t, uint64 & min) { CallGetPulseTimeAux(r, t, min); }
    void Sweep(PulseNode & r, uint64 t) { CallPulseAux(r, t); }
 };
+
+static std::vector<Node *> roots;
+static Mgr mgr;
 
 // ---- model helpers
 static bool Attached(const Node * n) { int guard = 0; while (n && guard++ < 100000) { if (n->isRoot) return true; if (n->parent < 0) return false; n = all[n->parent]; } return false; }
@@ -223,6 +228,49 @@ static void Action(Node * self /* NULL outside callbacks */)
    }
 }
 
+// scripted operations from inside GetPulseTime() (the recalculation sweep is running: this node has just been marked valid, its needy
+// children are drained after it returns).  Not generated: operations on this node itself or on its ancestors (their own question has
+// already been asked in this sweep; --opt gpt_stack_invalidate=1 generates them under their own key), moving attached subtrees, destroying.
+static int RootIndex(const Node * n) { while (n->parent >= 0) n = all[n->parent]; for (size_t r = 0; r < roots.size(); r++) if (roots[r] == n) return (int)r; return -1; }
+static void MarkDeferredIfRootDone(Node * t) { if (Attached(t)) { const int ri = RootIndex(t); if (ri >= 0 && ri < curRootIdx) t->deferredAsk = true; } }
+static void GptAction(Node * self)
+{
+   gptActionsThisSweep++; nGptActions++;
+   const uint32 o = R(100);
+   if (o < 38) {
+      Node * t = NULL; const char * rel = "other";
+      const uint32 w = R(10);
+      if (w < 4 && !self->kids.empty()) { t = all[self->kids[R((uint32)self->kids.size())]]; rel = "own_child"; if (w < 2 && !t->kids.empty()) { t = all[t->kids[R((uint32)t->kids.size())]]; rel = "own_grandchild"; } }
+      else if (w < 7 && self->parent >= 0) { Node * p = all[self->parent]; t = all[p->kids[R((uint32)p->kids.size())]]; rel = "sibling"; }
+      else t = Pick(true);
+      if (!t) return;
+      const bool onStack = IsAncestorOrSelf(t, self);
+      if (onStack) { if (!optStackInvalidate) { vh::stat("unspecified_not_generated_invalidate_self_or_ancestor_inside_getpulsetime"); return; } rel = (t == self) ? "self" : "ancestor"; }
+      const bool clear = R(2) != 0; if (R(4)) t->req = PickTime();
+      Op(vh::fmt("gpt:%d invalidates %s %d clear=%d req=%s", self->id, rel, t->id, (int)clear, T(t->req).c_str()));
+      t->InvalidatePulseTime(clear); t->valid = false; if (clear) t->sched = NEVER;
+      if (onStack) { t->deferredAsk = true; t->stackInvalidated = !t->isRoot; } else MarkDeferredIfRootDone(t);
+      vh::stat(std::string("actions_inside_getpulsetime_invalidate_") + rel);
+   }
+   else if (o < 62) {
+      Node * c = NULL; Node * p = R(2) ? self : Pick(true); if (!p) return;
+      if (R(10) < 7 && all.size() < 260) { c = new Node((int)all.size()); all.push_back(c); c->req = PickTime(); Op(vh::fmt("gpt:new node %d req=%s", c->id, T(c->req).c_str())); }
+      else { c = Pick(false); if (!c || c->parent >= 0 || !c->kids.empty()) return; }     // a detached node without children
+      if (c == p || Depth(p) + 1 > MAXDEPTH) return;
+      DoAttach(c, p, "gpt:"); MarkDeferredIfRootDone(c);
+      vh::stat(p == self ? "actions_inside_getpulsetime_attach_under_self" : "actions_inside_getpulsetime_attach_elsewhere");
+      if (c->req <= now) vh::stat("actions_inside_getpulsetime_attach_due_child");
+   }
+   else if (o < 76) {
+      Node * c = (R(2) && !self->kids.empty()) ? all[self->kids[R((uint32)self->kids.size())]] : Pick(false);
+      if (!c || c->parent < 0 || IsAncestorOrSelf(c, self)) return;
+      const bool own = c->parent == self->id;
+      DoDetach(c, "gpt:");
+      vh::stat(own ? "actions_inside_getpulsetime_detach_own_child" : "actions_inside_getpulsetime_detach_other");
+   }
+   else { Node * b = Pick(true); if (!b) return; b->req = PickTime(); Op(vh::fmt("gpt:retime %d req=%s", b->id, T(b->req).c_str())); vh::stat("actions_inside_getpulsetime_retime"); }
+}
+
 uint64 Node::GetPulseTime(const PulseArgs & a)
 {
    nAsks++; asked++;
@@ -232,8 +280,13 @@ uint64 Node::GetPulseTime(const PulseArgs & a)
    else if (a.GetCallbackTime() != now) Fail("asked|callback_time_arg", vh::fmt("node %d: GetCallbackTime() %s", id, T(a.GetCallbackTime()).c_str()));
    else if (a.GetScheduledTime() != sched) Fail("asked|scheduled_time_arg", vh::fmt("node %d: GetScheduledTime() is %s, documented: the previous answer (%s)", id, T(a.GetScheduledTime()).c_str(), T(sched).c_str()));
    if (valid) vh::stat("unspecified_valid_node_asked_again");
-   valid = true; lastReturned = sched = req;
-   return req;
+   valid = true; lastReturned = sched = req; deferredAsk = stackInvalidated = false;
+   if (req < sweepFloor) sweepFloor = req;
+   const uint64 answer = req;
+   if (scriptedGptInvalidate.count(id)) { std::pair<int, uint64> sc = scriptedGptInvalidate[id]; scriptedGptInvalidate.erase(id); Node * t = all[sc.first]; Op(vh::fmt("gpt:%d invalidates %d req=%s", id, t->id, T(sc.second).c_str())); t->req = sc.second; t->InvalidatePulseTime(); t->valid = false; t->sched = NEVER; gptActionsThisSweep++; }
+   if (scriptedGptAttach.count(id)) { Node * c = all[scriptedGptAttach[id]]; scriptedGptAttach.erase(id); Op(vh::fmt("gpt:%d adopts %d", id, c->id)); PutPulseChild(c); c->parent = id; kids.push_back(c->id); gptActionsThisSweep++; }
+   if (!quiet && !caseBad && phase == RECALC && R(8) == 0) GptAction(this);
+   return answer;
 }
 
 void Node::Pulse(const PulseArgs & a)
@@ -259,28 +312,38 @@ void Node::Pulse(const PulseArgs & a)
 }
 
 // ---- one cycle
-static std::vector<Node *> roots;
-static Mgr mgr;
 
 static void Recalculate()
 {
-   std::set<int> wasInvalid;
-   for (size_t i = 0; i < all.size(); i++) if (all[i]) { all[i]->asked = 0; if (!all[i]->valid && Attached(all[i])) wasInvalid.insert((int)i); }
+   std::set<int> wasInvalid; sweepFloor = NEVER; gptActionsThisSweep = 0;
+   for (size_t i = 0; i < all.size(); i++) if (all[i]) { Node * n = all[i]; n->asked = 0; n->deferredAsk = false; if (Attached(n)) { if (!n->valid) wasInvalid.insert((int)i); else if (n->lastReturned < sweepFloor) sweepFloor = n->lastReturned; } }
    Op(vh::fmt("RECALC at %s", T(now).c_str()));
    phase = RECALC; uint64 min = NEVER;
-   for (size_t r = 0; r < roots.size(); r++) mgr.Recalc(*roots[r], now, min);
-   phase = IDLE; vh::stat("recalculations");
+   for (size_t r = 0; r < roots.size(); r++) { curRootIdx = (int)r; mgr.Recalc(*roots[r], now, min); }
+   phase = IDLE; vh::stat("recalculations"); if (gptActionsThisSweep) vh::stat("recalculations_with_actions_inside_getpulsetime");
    if (caseBad) return;
    uint64 want = NEVER;
    for (size_t i = 0; i < all.size(); i++) {
-      Node * n = all[i]; if (!n) continue;
+      Node * n = all[i]; if (!n || !Attached(n)) continue;
       const bool inv = wasInvalid.count((int)i) > 0;
-      if (inv && n->asked != 1) { Fail(n->asked ? "recalc|asked_more_than_once" : "recalc|invalid_node_not_asked", vh::fmt("node %d was attached and invalid, GetPulseTime() was called %d times", n->id, n->asked)); return; }
-      if (Attached(n)) { if (!n->valid) { Fail("recalc|invalid_node_not_asked", vh::fmt("node %d is attached and still invalid", n->id)); return; } if (n->lastReturned < want) want = n->lastReturned; }
+      if (inv && gptActionsThisSweep == 0 && n->asked != 1) { Fail(n->asked ? "recalc|asked_more_than_once" : "recalc|invalid_node_not_asked", vh::fmt("node %d was attached and invalid, GetPulseTime() was called %d times", n->id, n->asked)); return; }
+      if (!n->valid) {
+         // invalidated / attached during this sweep where the sweep could not come back to it (its root was already done): asked in the next cycle
+         if (n->deferredAsk) { vh::stat("asks_deferred_to_the_next_cycle"); continue; }
+         Fail(n->stackInvalidated ? "recalc|node_invalidated_during_its_own_recalculation_is_never_asked_again" : "recalc|invalid_node_not_asked", vh::fmt("node %d is attached and still invalid after the recalculation sweep (asked %d times in it)", n->id, n->asked)); return;
+      }
+      if (n->lastReturned < want) want = n->lastReturned;
    }
-   if (min != want) { Fail(min < want ? "recalc|minimum_too_early" : "recalc|minimum_too_late", vh::fmt("reported minimum %s, minimum over the attached nodes %s", T(min).c_str(), T(want).c_str())); return; }
+   if (min > want) { Fail("recalc|minimum_too_late", vh::fmt("reported minimum %s, minimum over the attached nodes %s", T(min).c_str(), T(want).c_str())); return; }
+   if (min < want) {
+      // a node that was asked (or counted through an ancestor) before a GetPulseTime() callback of the same sweep re-timed or detached it has
+      // already entered the running minimum: a wake-up that is merely too early is tolerated then, never one below every answer seen
+      if (gptActionsThisSweep && min >= sweepFloor) vh::stat("unspecified_minimum_early_after_actions_inside_getpulsetime");
+      else { Fail("recalc|minimum_too_early", vh::fmt("reported minimum %s, minimum over the attached nodes %s", T(min).c_str(), T(want).c_str())); return; }
+   }
    Op(vh::fmt("min=%s", T(min).c_str()));
    touchedTops.clear(); excused.clear();
+   for (size_t i = 0; i < all.size(); i++) if (all[i] && !all[i]->valid && Attached(all[i])) Touch(all[i]);   // its ancestors still wait for recalculation: that subtree may be deferred
    Audit();
 }
 
@@ -331,7 +394,7 @@ static void Cycle()
 static void RunCase(long k, uint64_t cs)
 {
    g = vh::Rng(cs); trace.clear(); caseBad = false; quiet = false; phase = IDLE; now = 1000; touchedTops.clear(); excused.clear(); protectedNodes.clear();
-   nAsks = nFires = nActionsInCallbacks = 0; all.clear(); roots.clear();
+   nAsks = nFires = nActionsInCallbacks = nGptActions = 0; gptActionsThisSweep = 0; curRootIdx = 0; sweepFloor = NEVER; scriptedGptInvalidate.clear(); scriptedGptAttach.clear(); all.clear(); roots.clear();
    const uint32 N = R(3) == 0 ? 1 + R(8) : (R(2) ? 1 + R(40) : 1 + R(200));
    const uint32 nr = std::min<uint32>(N, R(4) == 0 ? 1 + R(3) : 1);
    int maxDepth = 0;
@@ -353,7 +416,7 @@ static void RunCase(long k, uint64_t cs)
    }
    if (!caseBad) { quiet = true; Recalculate(); if (!caseBad) (void)PulseSweep(); quiet = false; }
    size_t live = 0; for (size_t i = 0; i < all.size(); i++) if (all[i]) live++;
-   vh::stat("asks", nAsks); vh::stat("fires", nFires); vh::stat("actions_inside_callbacks", nActionsInCallbacks);
+   vh::stat("asks", nAsks); vh::stat("fires", nFires); vh::stat("actions_inside_callbacks", nActionsInCallbacks); vh::stat("actions_inside_getpulsetime", nGptActions);
    vh::statmax("max_nodes", (long)all.size()); vh::statmax("max_depth", maxDepth);
    if (N >= 100) vh::stat("cases_with_100_or_more_nodes"); if (N == 1) vh::stat("cases_with_a_single_node"); if (nr > 1) vh::stat("cases_with_several_roots"); if (maxDepth >= 7) vh::stat("cases_depth_7_or_8");
    vh::distinct(vh::fnv(&cs, sizeof(cs)), nFires >= 10 && N >= 3 && nActionsInCallbacks >= 3);
@@ -390,6 +453,21 @@ static void Regress()
       if (!caseBad) { all[1]->req = 26; all[1]->InvalidatePulseTime(); all[1]->valid = false; all[1]->sched = NEVER; Recalculate(); all[0]->RemovePulseChild(all[1]); ModelDetach(all[1]); Recalculate(); }
       for (int i = 3; i >= 0; i--) { delete all[i]; } all.clear(); roots.clear();
       vh::distinct(1);
+   }
+   {  // seeded scenario (GetPulseTimeAux drained the needy children before asking the node itself): root -> group -> kid; from inside its own
+      // GetPulseTime() the group (A) re-times its kid from 100 to 50 and invalidates it, (B) adopts a new child wanting 300
+      vh::begin_case(1); trace.clear(); caseBad = false; all.clear(); roots.clear(); now = 0; quiet = true; touchedTops.clear(); excused.clear(); scriptedGptInvalidate.clear(); scriptedGptAttach.clear();
+      for (int i = 0; i < 4; i++) all.push_back(new Node(i));
+      all[0]->isRoot = true; roots.push_back(all[0]);
+      all[0]->PutPulseChild(all[1]); all[1]->parent = 0; all[0]->kids.push_back(1); all[1]->PutPulseChild(all[2]); all[2]->parent = 1; all[1]->kids.push_back(2);
+      all[0]->req = NEVER; all[1]->req = 900; all[2]->req = 100; all[3]->req = 300;
+      Recalculate();
+      if (!caseBad) { scriptedGptInvalidate[1] = std::make_pair(2, (uint64)50); all[1]->InvalidatePulseTime(); all[1]->valid = false; all[1]->sched = NEVER; Recalculate(); }
+      if (!caseBad) { now = 50; all[2]->req = NEVER; (void)PulseSweep(); if (!caseBad && !all[2]->fired) Fail("regress|child_invalidated_inside_parents_GetPulseTime", "the kid did not fire at 50"); }
+      if (!caseBad) { scriptedGptAttach[1] = 3; all[1]->InvalidatePulseTime(); all[1]->valid = false; all[1]->sched = NEVER; Recalculate(); }
+      if (!caseBad) { now = 300; (void)PulseSweep(); if (!caseBad && !all[3]->fired) Fail("regress|child_attached_inside_parents_GetPulseTime", "the adopted child did not fire at 300"); }
+      for (int i = 3; i >= 0; i--) { delete all[i]; } all.clear(); roots.clear(); quiet = false;
+      vh::distinct(2);
    }
 }
 
@@ -575,6 +653,7 @@ int main(int argc, char ** argv)
    CompleteSetupSystem css;
    vh::init(argc, argv);
    vh::Ctx & c = vh::ctx();
+   optStackInvalidate = vh::optl("gpt_stack_invalidate", 0) != 0;
    (void)SetConsoleLogLevel(MUSCLE_LOG_NONE);
    if (vh::opt("mode", "model") == "regress") { Regress(); srv::RegressNotReadyFactory(); return vh::finish(); }
    if (vh::opt("mode", "model") == "server") { for (long k = c.from; k < c.from + c.cases; k++) { vh::begin_case(k); srv::RunServerCase(k, vh::case_seed(c.seed, 2002, (uint64_t)k)); } return vh::finish(); }
